@@ -18,6 +18,12 @@ CHECKS = {
  "C04": ("exploration", "differential monitor: independent GameSpy 1/2/3 server models (encoders) vs the real decoders over the scripted transport",
          "Random GameSpy 1 (multi-part, query ids), 2 (key/value block + player/team tables) and 3 (handshake, splitnum packets, field sections continued across packets) states are encoded by server models and query / query_vars must return every scalar, every player and team and exactly the unconsumed variables. Evidence counts the states with players whose players all came back (the silent 'Ok with an empty list' class).",
          "Implementation-defined formats: the models encode the layout the readers are meant to consume (DESIGN Appendix A.2-A.4); oracle is completeness.", "4 C04"),
+ "C05": ("exploration", "differential monitor: independent Quake 1/2/3 status-reply model (encoder) vs the real decoder over the scripted transport",
+         "Random status replies of the three formats (alternate key spellings, 0-64 player lines, quoted/unquoted names, optional address, trailing newline present or absent) must come back as the named variables, one player per line and the remaining variables untouched; evidence counts states with players whose players all came back.",
+         "Implementation-defined format (DESIGN Appendix A.5); names with spaces or quotes are outside the asserted domain.", "4 C05"),
+ "C06": ("exploration", "differential monitor: Unreal 2 server model vs the real decoder; exhaustive sweep over every string length byte x decoration x position",
+         "Every length byte 0..=255 (both encodings) x {no escape, colour escape at start/middle/end, control codes} x 7 string positions is sent through the real query and must come back as the sent text with colour/control codes removed (8 960 cases, exhaustive), plus random states with repeated rule keys, mutators, bots and 1-6 datagrams per list.",
+         "Implementation-defined format (DESIGN Appendix A.6); Latin-1 bytes 80-9f, a leading 01 in UCS-2 strings and truncated colour escapes are outside the asserted domain.", "4 C06"),
 }
 NOT_YET = {}
 for i in range(1, 21):
